@@ -1,20 +1,93 @@
 package semver
 
-// C04: totality of the text entry points of util/semver.
+// C04: totality of the text entry points of util/semver. Inputs are arbitrary
+// byte strings of a concrete length; every Go panic or unwinding failure on a
+// feasible path is a violation.
 
 func VerifC04Parse() {
 	sys := System(vParam("sys"))
 	n := vParam("n")
 	s := vBytes("s", n)
 	v, err := sys.Parse(s)
+	vObserveBool("accepted", err == nil)
 	if err == nil {
 		vCover(true, "accepted")
-		_ = v.Canon(true)
+		vObserveStr("canon", v.Canon(true))
 		_ = v.Canon(false)
 		_ = v.String()
 		_ = v.IsWildcard()
+		_ = v.IsPrerelease()
+		_ = v.IsBuild()
 		_ = v.Prerelease()
+		_, _ = v.Major()
+		_, _ = v.Epoch()
 	} else {
 		vCover(true, "rejected")
+	}
+}
+
+func VerifC04Constraint() {
+	sys := System(vParam("sys"))
+	n := vParam("n")
+	s := vBytes("s", n)
+	c, err := sys.ParseConstraint(s)
+	vObserveBool("accepted", err == nil)
+	if err == nil {
+		vCover(true, "accepted")
+		_ = c.String()
+		vObserveBool("simple", c.IsSimple())
+		_ = c.HasPrerelease()
+		set := c.Set()
+		vObserveStr("set", set.String())
+		_ = set.Empty()
+	} else {
+		vCover(true, "rejected")
+	}
+}
+
+func VerifC04ConstraintMatch() {
+	sys := System(vParam("sys"))
+	s := vBytes("s", vParam("n"))
+	t := vBytes("t", vParam("m"))
+	c, err := sys.ParseConstraint(s)
+	if err != nil {
+		return
+	}
+	vCover(true, "accepted")
+	vObserveBool("match", c.Match(t))
+	v, err := sys.Parse(t)
+	if err == nil {
+		_ = c.MatchVersion(v)
+		_ = c.MatchVersionPrerelease(v)
+		_, _ = c.Set().Match(t)
+	}
+}
+
+func VerifC04Set() {
+	sys := System(vParam("sys"))
+	n := vParam("n")
+	s := vBytes("s", n)
+	c, err := sys.ParseSetConstraint(s)
+	vObserveBool("accepted", err == nil)
+	if err == nil {
+		vCover(true, "accepted")
+		set := c.Set()
+		vObserveStr("set", set.String())
+		_ = set.Empty()
+		_ = c.IsSimple()
+	} else {
+		vCover(true, "rejected")
+	}
+}
+
+func VerifC04Compare() {
+	sys := System(vParam("sys"))
+	a := vBytes("a", vParam("n"))
+	b := vBytes("b", vParam("m"))
+	vObserveInt("cmp", sys.Compare(a, b))
+	c, d, err := sys.Difference(a, b)
+	if err == nil {
+		vObserveInt("diffc", c)
+		vObserveInt("diffd", int(d))
 	}
 }
